@@ -74,7 +74,7 @@ var defaultHandledProps = []string{"color", "background-color", "font-size", "te
 	"font-variant-ligatures", "background-position-x", "border-inline-start", "margin-inline", "text-decoration-thickness",
 	"font-feature-settings", "overflow-wrap", "border-top-left-radius", "list-style-position"}
 var styleVals = []string{"red", "#fff", "12px", "center", "50%", "url(http://x.example/y.png)", "expression(alert(1))",
-	"r\\65 d", "javascript:x", "1", "123456789", "bold", "left", "blue", "RED", "12PX",
+	"r\\65 d", "r\\000065 d", "\\110000 x", "\\0000065d", "javascript:x", "1", "123456789", "bold", "left", "blue", "RED", "12PX",
 	// shorthand values of four and more tokens
 	"1px 2px 3px 4px", "italic bold 12px serif", "1px solid red inherit", "italic small-caps bold 12px serif", "thin dashed blue transparent",
 	"1px 2px 3px 4px 5px", "red none repeat scroll 0 0", "underline overline dotted red"}
